@@ -120,6 +120,13 @@ class SG:
             elif kk < 0.45:
                 c1, c2 = INT_COLS[tbl][1], INT_COLS[tbl][2]
                 e = r.choice(["(fn ifnull %s %s)", "(fn coalesce %s %s)"]) % (self.col(a, c1), self.col(a, c2))
+            elif kk < 0.65:
+                # a sort key whose top-level operator binds looser than IS NULL (MySQL's NULLS FIRST/LAST emulation
+                # appends IS NULL to it): logical, NOT, BETWEEN and comparison expressions over nullable columns
+                c1, c2 = INT_COLS[tbl][1], INT_COLS[tbl][2]
+                e = r.choice(["(bin and %s %s)", "(bin or %s %s)", "(not %s)", "(between %s (val i:i32:1) %s)",
+                              "(bin eq %s %s)", "(bin lt %s %s)"])
+                e = e % ((self.col(a, c1), self.col(a, c2)) if e.count("%s") == 2 else (self.col(a, c1),))
             k = r.random()
             if k < 0.5:
                 out.append("(orderby %s %s)" % (e, r.choice(["asc", "desc"])))
